@@ -205,3 +205,83 @@ pub fn hdr_json(h: Option<(u16, u16, u32)>) -> J {
         None => json!({"ver": -1, "code": -1, "id": [0, 0]}),
     }
 }
+
+/// Reference encoding of a value of the harness's own tree, written from RFC 8010 3.5-3.9
+/// (independent of the crate's encoder).  Sets: first value carries the name, the others an empty
+/// name and their own tag; collections: begCollection, (memberAttrName, member values)*, endCollection.
+pub fn av_scalar(v: &crate::av::AV) -> (u8, Vec<u8>) {
+    use crate::av::AV;
+    match v {
+        AV::Int(i) => (0x21, i.to_be_bytes().to_vec()),
+        AV::Enum(i) => (0x23, i.to_be_bytes().to_vec()),
+        AV::Bool(b) => (0x22, vec![*b as u8]),
+        AV::Range(a, b) => {
+            let mut o = a.to_be_bytes().to_vec();
+            o.extend_from_slice(&b.to_be_bytes());
+            (0x33, o)
+        }
+        AV::Str(k, s) => (crate::conc::kind_tag(k).expect("kind tag"), s.as_bytes().to_vec()),
+        AV::Lang(k, l, s) => {
+            let mut o = (l.len() as u16).to_be_bytes().to_vec();
+            o.extend_from_slice(l.as_bytes());
+            o.extend_from_slice(&(s.len() as u16).to_be_bytes());
+            o.extend_from_slice(s.as_bytes());
+            (if *k == "TextWithLanguage" { 0x35 } else { 0x36 }, o)
+        }
+        AV::DateTime(f) => {
+            let mut o = (f[0] as u16).to_be_bytes().to_vec();
+            for x in &f[1..] {
+                o.push(*x as u8);
+            }
+            (0x31, o)
+        }
+        AV::Resolution(x, y, u) => {
+            let mut o = x.to_be_bytes().to_vec();
+            o.extend_from_slice(&y.to_be_bytes());
+            o.push(*u as u8);
+            (0x32, o)
+        }
+        AV::NoValue => (0x13, vec![]),
+        AV::Other(t, d) => (*t, d.clone()),
+        AV::Set(_) | AV::Coll(_) => panic!("harness: not a scalar"),
+    }
+}
+
+pub fn av_tokens(name: &[u8], v: &crate::av::AV, out: &mut Vec<Tok>) {
+    use crate::av::AV;
+    match v {
+        AV::Set(vs) => {
+            for (i, e) in vs.iter().enumerate() {
+                av_tokens(if i == 0 { name } else { b"" }, e, out);
+            }
+        }
+        AV::Coll(ms) => {
+            out.push(Tok::Val(WT { tag: 0x34, name: name.to_vec(), body: vec![] }));
+            for (mn, mv) in ms {
+                out.push(Tok::Val(WT { tag: 0x4a, name: vec![], body: mn.as_bytes().to_vec() }));
+                av_tokens(b"", mv, out);
+            }
+            out.push(Tok::Val(WT { tag: 0x37, name: vec![], body: vec![] }));
+        }
+        s => {
+            let (tag, body) = av_scalar(s);
+            out.push(Tok::Val(WT { tag, name: name.to_vec(), body }));
+        }
+    }
+}
+
+pub fn amsg_tokens(m: &crate::av::AMsg) -> Vec<Tok> {
+    let mut t = vec![];
+    for g in &m.groups {
+        t.push(Tok::Delim(g.tag));
+        for (n, v) in &g.attrs {
+            av_tokens(n.as_bytes(), v, &mut t);
+        }
+    }
+    t.push(Tok::End);
+    t
+}
+
+pub fn amsg_bytes(m: &crate::av::AMsg) -> Vec<u8> {
+    encode(m.ver, m.code, m.id, &amsg_tokens(m))
+}
